@@ -36,7 +36,7 @@ struct Config {
 struct State {
     long point_hits = 0;
     long loop_heads = 0, steps_done = 0;
-    bool in_loop = false, after_loop = false;
+    bool in_loop = false, after_loop = false, report_decided = false;
     long entropy_reads = 0, clock_reads = 0;
     long planner_calls = 0, wisdom_imports = 0, wisdom_exports = 0;
     long io_writes = 0, io_reads = 0, io_opens = 0;
